@@ -25,8 +25,12 @@
        reader, and every program of the language of Model/Prog.v that neither
        captures nor runs a raw Source script, from Mode::decode to the final
        end-of-input check (delivery_free).
-   PARTIAL: capture (CaptureSource, treated under C11) and OctetStringSource are
-   not shown to be such trees; for them the tie is the correspondence stream
+   PARTIAL: capture (CaptureSource's offset forwarding; its Level-B theorems are
+   C11) is not shown to be such a tree, and with it the routines built on it:
+   capture*, OctetString::take_from of a constructed BER string (it captures its
+   segments) and the restricted strings on top of it. OctetStringSource is a
+   source, not a reader: C16 proves that it honours the contract assumed here of
+   every source. For the routines not covered the tie is the correspondence stream
    c07.sources, which runs every program through contract-checking sources of
    10 delivery kinds and compares with the Level-B model. The Level-A reading of a
    composite routine is the tree built from the access patterns; that the code
